@@ -792,6 +792,82 @@ Proof.
   split; [reflexivity|]. cbn [fst]. apply map_length.
 Qed.
 
+(* a peer that stalls inside a command: whatever the segmentation of what HAS arrived, exactly the
+   complete commands have been dispatched (their replies are owed now, not when more bytes come),
+   and the received part of the next command waits in the buffer *)
+Lemma conn_run_stalled : forall chunks cmds inb p c,
+  Forall cmd_ok cmds -> sprefix p (enc_cmd c) ->
+  inb ++ concat chunks = concat (map enc_cmd cmds) ++ p ->
+  (inb = [] \/ exists c0 r, cmds ++ [c] = c0 :: r /\ sprefix inb (enc_cmd c0)) ->
+  conn_run chunks inb = (map cmd_val cmds, p, false).
+Proof.
+  induction chunks as [|ch chunks IH]; intros cmds inb p c Hok Hp Hs Hinv.
+  - cbn [concat] in Hs. rewrite app_nil_r in Hs. cbn [conn_run].
+    destruct Hinv as [->|(c0 & r & Hc & Hi)].
+    + symmetry in Hs. apply app_eq_nil in Hs as [Hs ->].
+      destruct cmds as [|a cmds]; [reflexivity|]. exfalso.
+      cbn [map concat] in Hs. apply app_eq_nil in Hs as [Hs _]. exact (enc_cmd_nonempty a Hs).
+    + destruct cmds as [|a cmds].
+      * cbn [map concat app] in Hs. subst inb. reflexivity.
+      * exfalso. cbn [app] in Hc. injection Hc as <- _.
+        apply sprefix_length in Hi. rewrite Hs in Hi. cbn [map concat] in Hi.
+        rewrite !app_length in Hi. lia.
+  - destruct Hp as (q & Hq & Hpq).
+    assert (Hs' : (inb ++ ch) ++ (concat chunks ++ q) = concat (map enc_cmd (cmds ++ [c]))).
+    { rewrite map_app, concat_app. cbn [map concat]. rewrite app_nil_r, <- Hpq.
+      rewrite (app_assoc _ p q), <- Hs. cbn [concat]. now rewrite <- !app_assoc. }
+    destruct (split_stream _ _ _ Hs') as (c1 & c2 & tail & E1 & E2 & E3 & E4).
+    assert (Hc2 : c2 <> []).
+    { intros ->. cbn [map concat] in E3. apply app_eq_nil in E3 as [_ E3].
+      apply app_eq_nil in E3 as [_ E3]. exact (Hq E3). }
+    destruct (exists_last Hc2) as (c2' & x & ->).
+    rewrite app_assoc in E1. apply app_inj_tail in E1 as [E1 <-].
+    assert (Hok12 : Forall cmd_ok c1 /\ Forall cmd_ok c2').
+    { rewrite E1 in Hok. apply Forall_app in Hok. exact Hok. }
+    destruct Hok12 as [Hok1 Hok2].
+    cbn [conn_run].
+    assert (Hd : drain (S (length (inb ++ ch))) (inb ++ ch) = (map cmd_val c1, tail, false)).
+    { rewrite E2 at 2. apply drain_cmds; [exact Hok1 | exact (tail_invalid _ _ E4) |].
+      pose proof (stream_count_le c1) as Hc. rewrite E2, app_length. lia. }
+    rewrite Hd.
+    assert (E3' : tail ++ concat chunks = concat (map enc_cmd c2') ++ p).
+    { rewrite map_app, concat_app in E3. cbn [map concat] in E3. rewrite app_nil_r, <- Hpq in E3.
+      rewrite (app_assoc tail), (app_assoc _ p q) in E3. apply app_inv_tail in E3. exact E3. }
+    rewrite (IH c2' tail p c Hok2 (ex_intro _ q (conj Hq Hpq)) E3' E4).
+    rewrite E1, map_app. reflexivity.
+Qed.
+
+Theorem C01_stalled_peer : forall chunks cmds c p,
+  Forall cmd_ok cmds -> sprefix p (enc_cmd c) ->
+  concat chunks = concat (map enc_cmd cmds) ++ p ->
+  conn_run chunks [] = (map cmd_val cmds, p, false).
+Proof.
+  intros chunks cmds c p Hok Hp Hs. apply (conn_run_stalled chunks cmds [] p c Hok Hp Hs). left. reflexivity.
+Qed.
+Print Assumptions C01_stalled_peer.
+
+(* and the rest of the command, whenever and however it arrives, completes the transcript *)
+Corollary C01_stall_then_rest : forall chunks1 chunks2 cmds c p q,
+  Forall cmd_ok cmds -> cmd_ok c -> q <> [] -> p ++ q = enc_cmd c ->
+  concat chunks1 = concat (map enc_cmd cmds) ++ p -> concat chunks2 = q ->
+  fst (fst (conn_run chunks1 [])) = map cmd_val cmds /\
+  conn_run (chunks1 ++ chunks2) [] = (map cmd_val (cmds ++ [c]), [], false).
+Proof.
+  intros chunks1 chunks2 cmds c p q Hok Hc Hq Hpq H1 H2. split.
+  - rewrite (C01_stalled_peer chunks1 cmds c p Hok (ex_intro _ q (conj Hq Hpq)) H1). reflexivity.
+  - apply C01_chunking_independent.
+    + apply Forall_app. split; [exact Hok|]. constructor; [exact Hc|constructor].
+    + rewrite concat_app, H1, H2, map_app, concat_app. cbn [map concat].
+      now rewrite app_nil_r, <- Hpq, <- app_assoc.
+Qed.
+
+Example C01_stalled_ex :
+  let cmds := [[s2b "SET"; s2b "k"; [13;10;0;255]%N]; [s2b "PING"]] in
+  let nxt := [s2b "GET"; s2b "k"] in
+  let stream := concat (map enc_cmd cmds) ++ firstn 9 (enc_cmd nxt) in
+  conn_run [firstn 7 stream; skipn 7 stream] [] = (map cmd_val cmds, firstn 9 (enc_cmd nxt), false).
+Proof. vm_compute. reflexivity. Qed.
+
 Example C01_chunking_ex :
   let cmds := [[s2b "SET"; s2b "k"; [13;10;0;255]%N]; [s2b "PING"]; []; [s2b "GET"; s2b "k"]] in
   let stream := concat (map enc_cmd cmds) in
